@@ -30,7 +30,8 @@ def parPushH (cfg : Config) (now : Time) (p : ParPushReq) : HP Out := do
   let rid ← expectNat .newId (fun _ => retErr .server_error)
   let req : Req := { id := rid, client := client, requestedAt := now,
                      reqScopes := appendAllUniq [] p.q.scopes, reqAud := appendAllUniq [] p.q.aud,
-                     form := p.q.form ++ p.extraForm,
+                     -- client credentials sent in the body are not persisted with the request
+                     form := (p.q.form ++ p.extraForm).filter (fun kv => !(["client_secret", "client_assertion", "client_assertion_type"].contains kv.1)),
                      sess := { expPar := some (addDur now cfg.parLife) } }
   let uri ← expectNat (.createPAR { req := req, redirect := p.q.redirect, responseTypes := p.q.responseTypes, state := p.q.state })
     (fun _ => retErr .server_error)
@@ -60,10 +61,9 @@ def mergeForm (query stored : List (String × String)) : List (String × String)
 
 /-- authorization endpoint with a `request_uri`: `authorizeRequestFromPAR`, then `NewAuthorizeResponse` -/
 def authorizeParH (cfg : Config) (now : Time) (minNonce : Nat) (a : AuthzParReq) : HP Out := do
-  let p ← (do
-    match ← callH (.getPAR a.uri) with
-    | .par p => HP.ok p
-    | _ => HP.fail .invalid_request_uri : HP ParRec)
+  let p ← expectPar (.getPAR a.uri) (fun _ => retErr .invalid_request_uri)
+  -- the pushed request is short-lived
+  HP.guard (!(match p.req.sess.expPar with | some e => decide (e < now) | none => false)) .invalid_request_uri
   expectOk (.deletePAR a.uri) (fun _ => retErr .server_error)
   HP.guard (a.clientId == p.req.client.id) .invalid_request
   let q := authzReqOfPar p a
